@@ -242,7 +242,7 @@ theorem selectOf_tn (n : Node A) (a : A) (ha : P a) : selectOf (tn n) (h a) = se
 
 theorem skippedOf_tn (n : Node A) (sel : List Key) : skippedOf (tn n) sel = skippedOf n sel := by
   unfold skippedOf
-  rw [(htn n).branches]
+  rw [(htn n).branches, (htn n).controls]
   congr 2
   induction n.branches with
   | nil => rfl
